@@ -328,7 +328,11 @@ def run_job(job):
         out["digests"].append(ce.digest(spec))
         if not out["samples"]:
             c = ce.circuit(spec)
-            out["samples"].append({"part": part, "circuit": ce.hand_cdc(spec), "names": [c.get_element_name(e) for e in ce.walk(c)]})
+            try:
+                names = [c.get_element_name(e) for e in ce.walk(c)]
+            except Exception as ex:  # noqa   (already reported by eval_spec as name:raises ...)
+                names = [f"{type(ex).__name__}: {ex}"]
+            out["samples"].append({"part": part, "circuit": ce.hand_cdc(spec), "names": names})
     best = {}
     for rec in out["fails"]:
         if rec[1] not in best or rec[0] < best[rec[1]][0]:
